@@ -2790,9 +2790,25 @@ class PGPKey(Armorable, ParentRef, PGPObject):
                     return self.last
             return PktGrouper()
 
+        # True while the packets being read belong to a primary key of a version that is not implemented: not only that
+        # key packet is passed over, but the whole certificate (its user ids, subkeys and their signatures), up to the
+        # next primary key - they are not components of the key that happens to precede it in the input
+        foreign = False
+
         while True:
-            for group in iter(group for _, group in itertools.groupby(getpkt, key=pktgrouper()) if not _.endswith('Opaque')):
+            for gkey, group in itertools.groupby(getpkt, key=pktgrouper()):
+                if gkey.endswith('Opaque'):
+                    if next(group).header.tag in (PacketTag.PublicKey, PacketTag.SecretKey):
+                        foreign = True
+                    continue
+
                 pkt = next(group)
+
+                if isinstance(pkt, Primary) and not isinstance(pkt, Sub):
+                    foreign = False
+
+                if foreign:
+                    continue
 
                 # deal with pkt first
                 if isinstance(pkt, Key):
